@@ -18,9 +18,10 @@ def oracle_hop_energy(args):
     c = dict(args["case"])
     r = hc.impl_hop(c, args["cls"])
     ok, rel = hc.energy_check(c, r) if args["cls"] != "EvenSamplingTrajectory" else _es_energy(c, r)
-    ok = ok and r["parent_ok"]
-    return ok, {"state": r["state"], "velocity": r["v"], "rel_energy_error": rel, "parent_unchanged": r["parent_ok"]}, \
-        {"rel_energy_error_max": 1e-10}, "hop %d->%d on %s changes KE+V by %.3g (relative)" % (c["s"], c["t"], args["cls"], rel)
+    ok = ok and r["parent_ok"] and not r.get("pre_problem")
+    return ok, {"state": r["state"], "velocity": r["v"], "rel_energy_error": rel, "parent_unchanged": r["parent_ok"],
+                "preparatory_attempt": r.get("pre_problem")}, \
+        {"rel_energy_error_max": 1e-10}, (r.get("pre_problem") or "hop %d->%d on %s changes KE+V by %.3g (relative)" % (c["s"], c["t"], args["cls"], rel))
 
 
 def _es_energy(c, r):
@@ -161,7 +162,23 @@ def oracle_drift(args):
         "energy drift does not shrink quadratically with dt: drifts %r" % drifts
 
 
-ORACLES = {"hop_energy": oracle_hop_energy, "run_hops": oracle_run_hops, "drift": oracle_drift}
+@safe_oracle
+def oracle_restart_energy(args):
+    """a run stopped right after a step with an accepted hop, restarted from its log and continued: the total energy of the
+    combined log stays where the uninterrupted run has it (no jump at the restart)"""
+    from . import c13
+    eu, er, n_before = c13.energies_of(dict(args))
+    eu, er = np.array(eu), np.array(er)
+    drift_u = float(np.max(np.abs(eu - eu[0])))
+    n = min(len(eu), len(er))
+    dev = float(np.max(np.abs(er[:n] - eu[:n]))) if n else 0.0
+    ok = len(er) == len(eu) and dev <= 10 * drift_u + 1e-10
+    return ok, {"restart_at": n_before, "uninterrupted_drift": drift_u, "max_energy_difference": dev, "lengths": [len(eu), len(er)]}, \
+        {"max_energy_difference": "<= 10 x drift of the uninterrupted run"}, \
+        "after the restart at snapshot %d the logged total energy differs from the uninterrupted run by %.3g (its own drift: %.3g)" % (n_before, dev, drift_u)
+
+
+ORACLES = {"restart_energy": oracle_restart_energy, "hop_energy": oracle_hop_energy, "run_hops": oracle_run_hops, "drift": oracle_drift}
 
 
 # ------------------------------------------------------------------------------------------------
@@ -211,6 +228,8 @@ def run(ctx):
             ctx.case(None)
             ctx.oracle_fail("hop-energy:" + cls, "hop_energy", {"case": c, "cls": cls}, obs, req, text)
             continue
+        if not ok:
+            ctx.oracle_fail("hop-energy:" + cls, "hop_energy", {"case": c, "cls": cls}, obs, req, text)
         r = hc.impl_hop(c, cls)
         nontriv = c["n"] >= 2 or abs(c["delta"]) < 1e-3
         key = (cls, c["n"], c["N"], r["accepted"], c["kind"],
@@ -236,8 +255,6 @@ def run(ctx):
         if m["accepted"]:
             res = abs(m["a"] * m["s"] ** 2 + m["b"] * m["s"] + m["c"])
             ctx.monitor("max_quadratic_residual_rel", res / max(abs(m["c"]), abs(m["b"] * m["s"]), 1e-300))
-        if not ok:
-            ctx.oracle_fail("hop-energy:" + cls, "hop_energy", {"case": c, "cls": cls}, obs, req, text)
 
     # ---------------- kinetic energy / Verlet step ----------------
     from mudslide.trajectory_sh import TrajectorySH
@@ -306,3 +323,15 @@ def run(ctx):
             ctx.monitor("max_drift_ratio", r_)
         if not ok:
             ctx.oracle_fail("energy-drift-order", "drift", spec, obs, req, text)
+    # stop / restart / continue with hops around the interruption point
+    for i in range(ctx.budget(2, 20)):
+        K = int(rng.integers(24, 36))
+        spec = dict(cls="TrajectorySH", builtin=["simple", "dual"][i % 2], x0=-1.5, p0=float(rng.uniform(14, 22)), N=2, n=1, model_seed=1,
+                    dt=10.0, t0=0.0, K=K, rule="max_steps", pitch=4, zetas=[float(v) for v in 0.02 * rng.random(K + 4)])
+        for k in range(2, K - 1, 1 if ctx.thorough() else 2):
+            a = dict(spec, k=k)
+            ok, obs, req, text = oracle_restart_energy(a)
+            ctx.case(("restart-energy", spec["builtin"], k))
+            ctx.count("restart_energy_points")
+            if not ok:
+                ctx.oracle_fail("energy-jump-at-restart", "restart_energy", a, obs, req, text)
